@@ -33,7 +33,7 @@ func c08Child(name string, depth int) (Marshaler, string) {
 		// a context marshaler that fails: null is emitted instead
 		return WrapContextMarshaler(c08Ctx, ContextWriterFunc(func(ctx context.Context, w io.Writer) error { return errors.New("cannot marshal") })), "null"
 	case 5:
-		n := zzsym.Choice(name+".len", 3)
+		n := zzsym.Choice(name+".len", zzsym.Param("fan", 3))
 		arr := Array{}
 		want := "["
 		for i := 0; i < n; i++ {
@@ -46,7 +46,7 @@ func c08Child(name string, depth int) (Marshaler, string) {
 		}
 		return arr, want + "]"
 	default:
-		n := zzsym.Choice(name+".fields", 3)
+		n := zzsym.Choice(name+".fields", zzsym.Param("fan", 3))
 		var fields []CollectedField
 		aliases := []string{"x", "y\"q", ""}
 		for i := 0; i < n; i++ {
